@@ -400,6 +400,24 @@ def main():
         die("translator c19: resolve_delegation lost its `depth >= MAX_DELEGATION_DEPTH` bound")
     if len(re.findall(r"depth\s*\+\s*1", rd)) != 2:
         die("translator c19: resolve_delegation no longer recurses with depth + 1 in exactly two places")
+    # the root-delegator branch: the action test and the three containment tests sit inside ONE
+    # `parent.candidates.iter().any(|candidate| …)` closure (so one and the same candidate must hold the action AND contain
+    # the Delegation's bounds), and the containment tests on `candidate` occur nowhere else
+    def paren_block(text, start):
+        i = text.index("(", start); depth = 0; j = i
+        while j < len(text):
+            if text[j] == "(": depth += 1
+            elif text[j] == ")":
+                depth -= 1
+                if depth == 0: return text[i + 1:j]
+            j += 1
+        die("translator c19: unbalanced parentheses in resolve_delegation")
+    closures = [paren_block(rd, m.end() - 1) for m in re.finditer(r"parent\s*\.\s*candidates\s*\.\s*iter\(\)\s*\.\s*any\s*\(", rd)]
+    markers = [r"candidate\s*\.\s*delegation_allowed", r"held\s*==\s*permission\.as_str\(\)", r"candidate\s*\.\s*scope\s*\.\s*contains\(\s*&scope\s*\)",
+               r"candidate\s*\.\s*conditions\s*\.\s*contains\(\s*&conditions\s*\)", r"candidate\s*\.\s*constraints\s*\.\s*contains\(\s*&constraints\s*\)"]
+    one_closure = (len(closures) == 1 and all(re.search(mk, closures[0]) for mk in markers)
+                   and all(len(re.findall(mk, rd)) == 1 for mk in markers)
+                   and re.search(r"\|\|\s*parent\.is_owner", rd) is not None)
     # the re-delegation branch: the Principal who re-delegated is looked up and must be ACTIVE before the recursion
     # into the linked parent (repair of finding F-C19-4)
     m_branch = re.search(r"if\s*!\s*delegation\.parent_delegation\.is_empty\(\)\s*\{", rd)
@@ -520,6 +538,9 @@ def main():
     A(f"def authorizeDenyReturnsAfter : List String := {lean_list(deny_after)}")
     A(f"def ownerCandidateExport : Bool := {'true' if owner_export else 'false'}")
     A(f"def ownerCandidateMayDelegate : Bool := {'true' if owner_deleg else 'false'}")
+    A("/-- resolve_delegation, root-delegator branch: delegable / holds-the-action / scope, conditions and constraints containment are")
+    A("    all tested on the SAME candidate, inside the one `parent.candidates.iter().any(|candidate| …)` closure -/")
+    A(f"def conferralTestsOneCandidate : Bool := {'true' if one_closure else 'false'}")
     A("/-- resolve_delegation, re-delegation branch: the re-delegating Principal is looked up and must be ACTIVE before the recursion -/")
     A(f"def redelegatorMustBeActive : Bool := {'true' if redelegator_checked else 'false'}")
     A("")
@@ -581,6 +602,7 @@ def main():
     A("theorem gen_authorize_deny_returns : authorizeDenyReturnsAfter =")
     A('    ["inactive_principal", "suspended_space", "deny_statements", "choose_least_restrictive"] := by decide')
     A("theorem gen_owner_candidate : ownerCandidateExport = true ∧ ownerCandidateMayDelegate = true := by decide")
+    A("theorem gen_conferral_tests_one_candidate : conferralTestsOneCandidate = true := by decide")
     A("theorem gen_redelegator_must_be_active : redelegatorMustBeActive = true := by decide")
     A("theorem gen_permission_names_nodup : permissionNames.Nodup := by decide")
     A("end AndaVerif.Gen.GateTables")
